@@ -7,7 +7,12 @@
      ident   = cursor.ident()                    the FIRST token whose byte range contains the index
      context = table entry of the enclosing global declaration
        Type context       -> global table lookup of the identifier
-       Procedure context  -> local table of the context procedure first, then the global table
+       Procedure context  -> features.rs lookup_table_for(global table, local table of the context
+                             procedure, global_position).lookup(identifier): the local table first,
+                             then the global table - but the global table ONLY when
+                             cursor.is_global_position() (the previous non-comment token in front of
+                             the first token under the cursor is `proc`, `type`, `:` or `of`: the name
+                             of a global declaration / a name inside a type expression; Model/Cursor.v)
      answer  = ("```spl\n" ++ Display(entry) ++ "\n```" ++ documentation, as_pos_range(token range))
      documentation = "" without doc comment, else "\n---\n" ++ doc.trim_start() ++ "\n"
    where `doc` is the CONCATENATION of the doc comment contents (text after `//` up to, not
@@ -79,11 +84,12 @@ Definition prange := ((N * N) * (N * N))%type.
 Definition create_hover (e : entry) (r : prange) : text * prange :=
   (to_spl (show_entry e) ++ hover_documentation (entry_doc e), r).
 
-(* the entry hover looks up for an identifier, given the context *)
-Definition hover_entry (d : doc) (ctx : gentry) (name : text) : option entry :=
+(* the entry hover looks up for an identifier, given the context and `global_position`
+   (computed from the cursor BEFORE the match on the context; it has no effect in a Type context) *)
+Definition hover_entry (d : doc) (ctx : gentry) (global_position : bool) (name : text) : option entry :=
   match ctx with
   | GTypeE _ => match lookup (d_table d) name with Some g => Some (entry_of_g g) | None => None end
-  | GProcE p => lt_lookup (Some (pe_local p)) (Some (d_table d)) name
+  | GProcE p => lookup_for (d_table d) (pe_local p) global_position name
   end.
 
 Definition hover (d : doc) (line col : N) : res (option (text * prange)) :=
@@ -91,10 +97,11 @@ Definition hover (d : doc) (line col : N) : res (option (text * prange)) :=
   match cursor_ident c with
   | None => ROk None
   | Some (name, r) =>
+      let global_position := is_global_position c in
       match c_ctx c with
       | None => ROk None
       | Some ctx =>
-          match hover_entry d ctx name with
+          match hover_entry d ctx global_position name with
           | Some e => ROk (Some (create_hover e (pos_range r (d_text d))))
           | None => ROk None
           end
